@@ -43,6 +43,13 @@ pub fn hosts() -> Vec<Host> {
 const MARKERS: [(&str, &str); 11] = [("m0", ""), ("mS", "S"), ("mf", "f"), ("mSS", "SS"), ("mSf", "Sf"), ("mfS", "fS"), ("mff", "ff"), ("mSSS", "SSS"), ("mfff", "fff"), ("mSfSf", "SfSf"), ("mz", "z(bs=4)")];
 
 impl Host {
+    /// marker signature for this host (TH06-TH09 STD needs exactly 12 bytes of arguments per instruction)
+    fn marker_sig(&self, sig: &str) -> Option<String> {
+        if self.name != "std06" { return Some(sig.to_string()); }
+        if sig.len() > 3 || sig.contains('z') { return None; }
+        Some(format!("{sig}{}", "_".repeat(3 - sig.len())))
+    }
+
     pub fn user_mapfile(&self) -> String {
         let mut s = format!("{}\n", self.magic);
         if let Some((ints, floats)) = &self.regs {
@@ -51,15 +58,15 @@ impl Host {
             for (n, r) in ["X", "Y", "R", "W"].iter().zip(floats) { s += &format!("{r} {n}\n"); }
         }
         s += "!ins_names\n";
-        for (i, (n, _)) in MARKERS.iter().enumerate() { if *n == "mz" && !self.strings { continue; } s += &format!("{} {}\n", self.op_base + i as u16, n); }
+        for (i, (n, sig)) in MARKERS.iter().enumerate() { if *n == "mz" && !self.strings || self.marker_sig(sig).is_none() { continue; } s += &format!("{} {}\n", self.op_base + i as u16, n); }
         s += "!ins_signatures\n";
-        for (i, (n, sig)) in MARKERS.iter().enumerate() { if *n == "mz" && !self.strings { continue; } s += &format!("{} {}\n", self.op_base + i as u16, sig); }
+        for (i, (n, sig)) in MARKERS.iter().enumerate() { if *n == "mz" && !self.strings { continue; } if let Some(sig) = self.marker_sig(sig) { s += &format!("{} {}\n", self.op_base + i as u16, sig); } }
         s
     }
     /// the same signatures without any names (what a user who only knows the layouts would have)
     pub fn sigs_only_mapfile(&self) -> String {
         let mut s = format!("{}\n!ins_signatures\n", self.magic);
-        for (i, (n, sig)) in MARKERS.iter().enumerate() { if *n == "mz" && !self.strings { continue; } s += &format!("{} {}\n", self.op_base + i as u16, sig); }
+        for (i, (n, sig)) in MARKERS.iter().enumerate() { if *n == "mz" && !self.strings { continue; } if let Some(sig) = self.marker_sig(sig) { s += &format!("{} {}\n", self.op_base + i as u16, sig); } }
         s
     }
     pub fn wrap(&self, body: &str) -> String {
@@ -130,13 +137,15 @@ pub struct Seed { pub host: String, pub tool: Tool, pub label: String, pub bytes
 
 pub struct CaseOut { pub round_trips: u64, pub exempt: u64, pub failures: Vec<Failure>, pub nontrivial: bool, pub classes: Vec<String> }
 
-pub fn check_seed(seed: &Seed, opt_sets: &[u32], widths: &[usize]) -> CaseOut {
+pub fn check_seed(seed: &Seed, opt_sets: &[u32], widths: &[usize]) -> CaseOut { check_seed_ex(seed, opt_sets, widths, true) }
+
+pub fn check_seed_ex(seed: &Seed, opt_sets: &[u32], widths: &[usize], with_sigs_only: bool) -> CaseOut {
     let mut out = CaseOut { round_trips: 0, exempt: 0, failures: vec![], nontrivial: false, classes: vec![] };
     let mut raw_text: Option<String> = None;
     // map settings: with the user's aliases; with signatures only (names absent); with nothing (blobs)
     let mut mapsets: Vec<(&str, Vec<&str>)> = vec![("none", vec![])];
     if let Some(m) = &seed.user_map { mapsets.insert(0, ("aliases", vec![m.as_str()])); }
-    if let Some(m) = &seed.sigs_map { mapsets.push(("sigs-only", vec![m.as_str()])); }
+    if with_sigs_only { if let Some(m) = &seed.sigs_map { mapsets.push(("sigs-only", vec![m.as_str()])); } }
     for (mapname, maps) in &mapsets {
         for &bits in opt_sets {
             for &w in widths {
@@ -202,14 +211,14 @@ pub fn run(tier: &str) -> Report {
     let mut reg_bodies: Vec<(String, &'static str)> = vec![];
     let mut seen = BTreeSet::new();
     {
-        let (k, jumps, bound) = if thorough { (4, 2, 4) } else { (3, 2, 3) };
+        let (k, jumps, bound) = if thorough { (4, 2, 4) } else { (3, 2, 2) };
         for kk in 1..=k {
             explore_dfs(bound, 200_000, &|ch| crate::c07::gen_flat(ch, kk, jumps), &mut |_, (b, _)| { if seen.insert(b.clone()) { reg_bodies.push((b, "flat")); } });
         }
         let (b2, d2) = if thorough { (3, 2) } else { (2, 2) };
         explore_dfs(b2, 200_000, &|ch| { let mut g = crate::c06::GB { ch, marker: 0, n_struct: 0, has_inner_label_or_nest: false, max_depth: d2, count_jmp: true }; let b = g.block(d2, false); format!("{{ {b} }}") },
             &mut |_, b| { if seen.insert(b.clone()) { reg_bodies.push((b, "block")); } });
-        let (b3, d3) = if thorough { (3, 2) } else { (2, 2) };
+        let (b3, d3) = if thorough { (3, 2) } else { (1, 2) };
         explore_dfs(b3, 200_000, &|ch| { let mut g = crate::gen::G::new(ch, &table); g.max_depth = d3; g.body(2) }, &mut |_, b| { if seen.insert(b.clone()) { reg_bodies.push((b, "expr")); } });
     }
     let mut seeds: Vec<Seed> = vec![];
@@ -226,7 +235,7 @@ pub fn run(tier: &str) -> Report {
             }
         }
         let mut seen_plain = BTreeSet::new();
-        let (pn, pb) = if thorough { (4, 4) } else { (3, 3) };
+        let (pn, pb) = if thorough { (4, 4) } else { (3, 2) };
         for n in 1..=pn { explore_dfs(pb, 100_000, &|ch| gen_plain(ch, &host, n), &mut |_, b| { if seen_plain.insert(b.clone()) { bodies.push((b, "plain")); } }); }
         rep.transitions += bodies.len() as u64;
         let results = par_map(&bodies, Some(deadline), |_, (b, _)| {
@@ -246,6 +255,41 @@ pub fn run(tier: &str) -> Report {
         }
         compile_stats.insert(host.name.to_string(), (ok, rejected));
     }
+    // ---------- extra families: mission MSG, ending MSG, ECL timelines (real built-in signatures)
+    {
+        let t = |k, g: &str| Tool::new(k, g.parse::<Game>().unwrap());
+        let mut extra: Vec<(&'static str, Tool, String)> = vec![];
+        let texts = ["abc", "", "日本語", "a\\\"b"];
+        for n in 1..=2usize { for a in 0..texts.len() { for b in 0..texts.len() { for big in [false, true] {
+            let e095 = |i: usize| format!("entry {{ stage: {}, scene: {}, face: {}, point: {}, text: [\"{}\", \"{}\", \"x{i}\"] }}\n", 1 + 9 * i, 2 + 4 * i, 3 * (1 - i), if big { 1234567 } else { 4 }, texts[a], texts[b]);
+            extra.push(("mission095", t(Kind::Mission, "th095"), (0..n).map(e095).collect::<String>()));
+            let e125 = |i: usize| format!("entry {{ stage: {}, scene: {}, player: {i}, unknown_1: {}, unknown_2: 9, point_1: 3, point_2: {}, furigana: [[1, 2], [3, 4], [5, {i}]], text: [\"{}\", \"{}\", \"c\", \"d\", \"\", \"f{i}\"] }}\n", 1 + 9 * i, 2 + 4 * i, 7 * i, if big { 1234567 } else { 4 }, texts[a], texts[b]);
+            extra.push(("mission125", t(Kind::Mission, "th125"), (0..n).map(e125).collect::<String>()));
+        }}}}
+        // ending MSG (th10/th12): text instruction 3 (masked string), plain instructions, time labels
+        for game in ["th10", "th12"] { for a in 0..texts.len() { for tl in ["", "+5:", "30:"] { for second in [false, true] {
+            extra.push(("end", t(Kind::End, game), format!("meta {{ table: {{ 0: {{script: \"script0\"}} }} }}\nscript script0 {{ ins_0(); {tl} ins_3(\"{}\"); ins_4(); {} }}\n", texts[a], if second { "+1: ins_3(\"|furi\"); ins_3(\"next\");" } else { "" })));
+        }}}}
+        // ECL timelines th06 / th08 with the real timeline signatures
+        for (game, lines, two) in [("th06", vec!["ins_0(sub0, 1.0, 2.0, 3.0, 50, 1000, 1);", "ins_1(sub1, 1.0, -2.0, 3.5);", "ins_9();", "ins_10(3, 4);", "+10:", "100:", "ins_2(sub1, 0.0, 0.0, 0.0, -1, 32767, 2147483647);", "ins_12(5);"], false),
+                              ("th08", vec!["ins_0(sub0, 1.0, 2.0, 50, 1000, 1);", "ins_2(sub1, 1.0, -2.0, 3.5, 1, 2, 3);", "+10:", "100:", "ins_3(sub1, 0.5, -1, 32767, 2147483647);", "ins_7();", "ins_8(3, 4);", "ins_9(7);"], true)] {
+            let n = lines.len();
+            for i in 0..n { for j in 0..n { for k in [None, Some(0usize), Some(n - 1)] {
+                let mut body = vec![lines[i], lines[j]]; if let Some(k) = k { body.push(lines[k]); }
+                let second = if two { format!("script timeline1 {{ {} }}\n", lines[(i + j) % n]) } else { String::new() };
+                extra.push(("timeline", t(Kind::Ecl, game), format!("void sub0() {{ }}\nvoid sub1() {{ }}\nscript timeline0 {{ {} }}\n{second}", body.join(" "))));
+            }}}
+        }
+        rep.transitions += extra.len() as u64;
+        let results = par_map(&extra, Some(deadline), |_, (_, tool, src)| drive::compile(*tool, src.as_bytes(), &CompileOpts::default()));
+        let mut dedupe = BTreeSet::new();
+        for (i, r) in results.into_iter().enumerate() {
+            let Some(c) = r else { continue; };
+            rep.evaluations += 1;
+            let e = compile_stats.entry(extra[i].0.to_string()).or_insert((0, 0));
+            match c.bytes { Some(bytes) if !c.has_warning() => { e.0 += 1; if dedupe.insert(bytes.clone()) { seeds.push(Seed { host: extra[i].0.to_string(), tool: extra[i].1, label: format!("extra:{}", extra[i].2), bytes, user_map: None, sigs_map: None, source: Some(extra[i].2.clone()) }); } }, _ => { e.1 += 1; } }
+        }
+    }
     let n_generated = seeds.len();
     seeds.extend(bundled_seeds());
     rep.extra.insert("seed_compile_stats(ok,rejected)".into(), json!(compile_stats));
@@ -256,7 +300,7 @@ pub fn run(tier: &str) -> Report {
     let widths: Vec<usize> = if thorough { vec![99, 1, 20, 40, 79, 200] } else { vec![99, 20] };
     let results = par_map(&seeds, Some(deadline), |i, s| {
         // bundled files and every 50th generated seed get all widths 1..=200 (thorough) on the default options
-        let o = check_seed(s, &opt_sets, &widths);
+        let o = check_seed_ex(s, &opt_sets, &widths, thorough || i % 8 == 0);
         let extra = if s.source.is_none() || i % 50 == 0 { let ws: Vec<usize> = if thorough { (1..=200).collect() } else { vec![1, 2, 3, 10, 40, 79, 80, 100, 200] }; Some(check_seed(s, &[0], &ws)) } else { None };
         (o, extra)
     });
@@ -274,7 +318,7 @@ pub fn run(tier: &str) -> Report {
     rep.nontrivial = rep.nontrivial.max(1);
     rep.extra.insert("failure_counts".into(), json!(sig_seen));
     rep.exhaustive = true;
-    rep.bound_completed = format!("{} distinct generated binaries over {} hosts (flat jump graphs, structured blocks, expression bodies, plain instruction/label/string sequences) + {} bundled files; option subsets {:?}; widths {:?} (+ {} on bundled files and every 50th binary); map settings aliases / signatures-only / none", n_generated, hosts().len(), seeds.len() - n_generated, opt_sets, widths, if thorough { "every width 1..=200" } else { "9 extra widths" });
+    rep.bound_completed = format!("{} distinct generated binaries over {} hosts (flat jump graphs, structured blocks, expression bodies, plain instruction/label/string sequences) + {} bundled files; option subsets {:?}; widths {:?} (+ {} on bundled files and every 50th binary); map settings aliases / none (+ signatures-only on every binary in thorough, every 8th in quick)", n_generated, hosts().len(), seeds.len() - n_generated, opt_sets, widths, if thorough { "every width 1..=200" } else { "9 extra widths" });
     rep.rule = "binaries = compile(generated source, user mapfile of aliases) deduplicated by content, plus bundled game files; every (binary, option subset, width, map setting) is decompiled and recompiled; non-trivial = the default decompilation differs from the all-flags-off decompilation or contains labels/strings".into();
     rep.assumptions = vec!["decompile runs that print one of the listed information-loss warnings are exempt and counted".into(), "in-process drivers mirror cli_def (C19 runs the real CLI)".into()];
     rep.explanation = "compile(format_w(decompile_opts(B)), image source = B) == B byte for byte".into();
@@ -305,7 +349,24 @@ pub fn replay(detail: &serde_json::Value) -> i32 {
     let host_name = detail["host"].as_str().unwrap_or("");
     let bits = detail["opts_bits"].as_u64().unwrap_or(0) as u32;
     let w = detail["width"].as_u64().unwrap_or(99) as usize;
-    let seed = if let Some(h) = hosts().into_iter().find(|h| h.name == host_name) {
+    let extra_tool = |name: &str, src: &str| -> Option<Tool> {
+        let g = |s: &str| s.parse::<Game>().unwrap();
+        Some(match name { "mission095" => Tool::new(Kind::Mission, g("th095")), "mission125" => Tool::new(Kind::Mission, g("th125")),
+            "end" => Tool::new(Kind::End, g(if src.contains("th12") { "th12" } else { "th10" })), "timeline" => Tool::new(Kind::Ecl, g("th06")), _ => return None })
+    };
+    let seed = if let Some(tool) = extra_tool(host_name, detail["source"].as_str().unwrap_or("")) {
+        let src = detail["source"].as_str().unwrap_or("").to_string();
+        // (the game is not recoverable for end/timeline from the name alone: try the candidates)
+        let mut found = None;
+        for game in ["th06", "th08", "th10", "th12", "th095", "th125"] {
+            let t = Tool::new(tool.kind, game.parse::<Game>().unwrap());
+            if let Some(bytes) = drive::compile(t, src.as_bytes(), &CompileOpts::default()).bytes {
+                let hexs: String = bytes.iter().map(|b| format!("{b:02x}")).collect();
+                if detail["bytes_hex"].as_str() == Some(hexs.as_str()) { found = Some(Seed { host: host_name.into(), tool: t, label: "replay".into(), bytes, user_map: None, sigs_map: None, source: Some(src.clone()) }); break; }
+            }
+        }
+        match found { Some(s) => s, None => { println!("cannot rebuild seed"); return 2; } }
+    } else if let Some(h) = hosts().into_iter().find(|h| h.name == host_name) {
         let src = detail["source"].as_str().unwrap_or("").to_string();
         let um = h.user_mapfile();
         let c = drive::compile(h.tool, src.as_bytes(), &CompileOpts { mapfiles: vec![&um], ..Default::default() });
